@@ -333,6 +333,8 @@ def norm_sig(sig):
                    'ut': [list(t) for t in (ms.get('ut') or [])],
                    'uta': ms.get('uta', True),
                    'idx': list(ms.get('idx') or [])}
+        if ms.get('it'):
+            out[mn]['it'] = [list(t) for t in ms['it']]
     return out
 
 
